@@ -257,3 +257,53 @@ def c16_partition(klen, n):
     flat = [i for s in secs for i in s]
     bad = flat != list(range(klen)) or len(secs) != n
     return bad, f"klen={klen}, workers={n}: roots handed to workers {[(s[0], s[-1]) if s else () for s in secs]} ({len(flat)} of {klen} roots, {len(secs)} sections)"
+
+
+# ------------------------------------------------------------------ raw native results for the engine-vs-CPython differential check
+raw = native.raw
+
+@raw
+def d_c12_x86(a, b):
+    from osaca.parser import ParserX86ATT
+    from osaca.parser.register import RegisterOperand as R
+    return bool(ParserX86ATT().is_reg_dependend_of(R(name=a), R(name=b)))
+
+@raw
+def d_c12_a64(a, b):
+    from osaca.parser import ParserAArch64
+    from osaca.parser.register import RegisterOperand as R
+    return bool(ParserAArch64().is_reg_dependend_of(R(prefix=a[0], name=a[1]), R(prefix=b[0], name=b[1])))
+
+@raw
+def d_c20_validate(m, mode):
+    import osaca.db_interface as dbi
+    return dbi._validate_measurement(float(Fraction(m)), mode)
+
+@raw
+def d_c20_decode(code, isa):
+    import osaca.db_interface as dbi
+    return dbi._create_db_operand(code, isa)
+
+@raw
+def d_c06_memload(prefix, store, load, changes):
+    from osaca.semantics.kernel_dg import KernelDG
+    from osaca.parser import InstructionForm
+    from osaca.parser.register import RegisterOperand as R
+    from osaca.parser.memory import MemoryOperand as M
+    from osaca.parser.immediate import ImmediateOperand as Imm
+    reg = lambda n: R(name=n, prefix=prefix) if n is not None else None
+    mem = M(offset=Imm(value=store["offset"]) if store["offset"] is not None else None, base=reg(store["base"]), index=reg(store["index"]), scale=store["scale"])
+    lo = load["offset"]
+    src = M(offset=None if lo is None else Imm(value=None if lo == "IMMNONE" else lo), base=reg(load["base"]), index=reg(load["index"]), scale=load["scale"], pre_indexed=load["pre"])
+    ch = {k: (None if v is None else {"name": v[0], "value": v[1]}) for k, v in changes.items()}
+    f = InstructionForm(mnemonic="ld")
+    f.semantic_operands = {"source": [reg("c"), src], "destination": [reg("c")], "src_dst": []}
+    return bool(KernelDG.is_memload(object.__new__(KernelDG), mem, f, ch))
+
+@raw
+def d_c01_avg(ports, uops, as_dict):
+    from osaca.semantics.hw_model import MachineModel
+    mm = object.__new__(MachineModel)
+    mm._data = {"ports": list(ports)}
+    uo = [[float(Fraction(c)), list(ps)] for c, ps in uops]
+    return mm.average_port_pressure({0: uo} if as_dict else uo)
